@@ -19,6 +19,11 @@
 //!   truncated products; four truncations of < 1 unit each, two of them in the unfavourable direction). Both calls
 //!   go through the public `pool_delta_with_amounts(..).price_impact(params)` with the configured params. Also for
 //!   open interest through `position_price_impact(±size)`.
+//! * position side (`after_step_positions`): `impact_sign` and `virtual_inventory_impact` for increase / decrease
+//!   reports with the balance `|long OI − short OI|` and the trade `±size_delta_usd`; with a virtual inventory for
+//!   positions the uncapped reported impact (`value − price_impact_diff` for decreases) is `≤` the real open-interest
+//!   impact when that is negative, and `0 ≤ reported ≤ real` when it is not (the reported positive impact may be
+//!   capped below it).
 //! * `adjusted_factors_order` (c): `adjusted_factors().0 ≤ .1` for both configured params objects.
 
 use gmsol_model::{
@@ -192,38 +197,118 @@ pub fn probe_position_round_trip(w: &World, pos: u8, size_usd: u128, obs: &mut O
     if size == 0 {
         return;
     }
-    let mut f = w.fork();
-    let (r, _, _, _) = f.run_tx(0, |w, _| {
-        let mut p = w.positions[idx];
-        let (is_long, coll_long) = (p.is_long, p.is_collateral_token_long);
-        let fwd = {
-            let ops = PosOps { market: &mut w.market, pos: &mut p, inner: vec![] };
-            ops.position_price_impact(&size, false)?
-        };
-        // position impact params are read once more so that a fallible getter is part of the probe
-        let _ = w.market.position_impact_params()?;
-        w.market.apply_delta_to_open_interest(is_long, coll_long, &size)?;
-        let back = {
-            let ops = PosOps { market: &mut w.market, pos: &mut p, inner: vec![] };
-            ops.position_price_impact(&(-size), false)?
-        };
-        Ok((fwd.value, back.value))
-    });
-    match r {
-        Ok((a, b)) => {
-            let sum = bs(a) + bs(b);
-            if !a.is_zero() || !b.is_zero() {
-                obs.probe("c03_position_round_trip_nonzero");
+    for include_vi in [false, true] {
+        if include_vi && w.cfg.market.vi_positions.is_none() {
+            continue;
+        }
+        let mut f = w.fork();
+        let (r, _, _, _) = f.run_tx(0, |w, _| {
+            let mut p = w.positions[idx];
+            let (is_long, coll_long) = (p.is_long, p.is_collateral_token_long);
+            let fwd = {
+                let ops = PosOps { market: &mut w.market, pos: &mut p, inner: vec![] };
+                ops.position_price_impact(&size, include_vi)?
+            };
+            // position impact params are read once more so that a fallible getter is part of the probe
+            let _ = w.market.position_impact_params()?;
+            w.market.apply_delta_to_open_interest(is_long, coll_long, &size)?;
+            let back = {
+                let ops = PosOps { market: &mut w.market, pos: &mut p, inner: vec![] };
+                ops.position_price_impact(&(-size), include_vi)?
+            };
+            Ok((fwd.value, back.value))
+        });
+        match r {
+            Ok((a, b)) => {
+                let sum = bs(a) + bs(b);
+                if !a.is_zero() || !b.is_zero() {
+                    obs.probe("c03_position_round_trip_nonzero");
+                }
+                obs.require(
+                    sum <= BigInt::from(2),
+                    "C03",
+                    "round_trip_positive",
+                    || format!("pool=open_interest,virtual_inventory={include_vi}"),
+                    || format!("size={size} forward={a} reverse={b} sum={sum}"),
+                );
             }
+            Err(_) => obs.probe("c03_position_round_trip_not_computable"),
+        }
+    }
+}
+
+/// (a) and the virtual-inventory clause for position operations: the balance is `|long OI − short OI|` in USD, the
+/// trade is `±size_delta_usd` on the position's side. The reported impact of an increase is capped when positive
+/// (impact pool and max factor); the one of a decrease is capped on both sides, the uncapped negative value is
+/// `value − price_impact_diff`.
+pub fn after_step_positions(w: &World, out: &StepOutcome, obs: &mut Obs) {
+    if !out.ok {
+        return;
+    }
+    let Some(pb) = out.pos_before else { return };
+    let (op, reported, diff, delta): (&'static str, i128, u128, BigInt) = match &out.report {
+        Report::Increase(rep) => ("increase", *rep.execution().price_impact_value(), 0, BigInt::from(out.req.1)),
+        Report::Decrease(rep) => ("decrease", *rep.price_impact_value(), *rep.price_impact_diff(), -BigInt::from(*rep.size_delta_usd())),
+        _ => return,
+    };
+    if delta.is_zero() {
+        return;
+    }
+    let pre = &out.before.market;
+    let l0 = bu(pre.pools[crate::world::P_OI_LONG].long) + bu(pre.pools[crate::world::P_OI_LONG].short);
+    let s0 = bu(pre.pools[crate::world::P_OI_SHORT].long) + bu(pre.pools[crate::world::P_OI_SHORT].short);
+    let (dl, ds) = if pb.is_long { (delta.clone(), BigInt::zero()) } else { (BigInt::zero(), delta.clone()) };
+    let c = &w.cfg.market.position_impact;
+    let Some(r) = ref_price_impact(&l0, &s0, &dl, &ds, c.positive_factor.0, c.negative_factor.0, c.exponent.0) else {
+        return;
+    };
+    if r.cross_over {
+        obs.probe("cross_over_position");
+    }
+    let vi = w.cfg.market.vi_positions.is_some();
+    match r.change {
+        Change::Worsened => {
             obs.require(
-                sum <= BigInt::from(2),
+                reported <= 0,
                 "C03",
-                "round_trip_positive",
-                || "pool=open_interest".to_string(),
-                || format!("size={size} forward={a} reverse={b} sum={sum}"),
+                "impact_sign",
+                || format!("change=worsened,cross_over={},op={op},vi={vi}", r.cross_over),
+                || format!("open interest diff {} -> {} reported_impact={reported}", r.initial_diff, r.next_diff),
             );
         }
-        Err(_) => obs.probe("c03_position_round_trip_not_computable"),
+        Change::Improved => {
+            obs.require(
+                reported >= 0,
+                "C03",
+                "impact_sign",
+                || format!("change=improved,cross_over={},op={op},vi={vi}", r.cross_over),
+                || format!("open interest diff {} -> {} reported_impact={reported} factors=({},{}) exponent={}", r.initial_diff, r.next_diff, c.positive_factor.0, c.negative_factor.0, c.exponent.0),
+            );
+        }
+        Change::Unchanged => {}
+    }
+    if vi {
+        if let Some(real) = &r.value {
+            obs.probe("c03_vi_positions_clause_evaluated");
+            let ok = if real.is_negative() {
+                // uncapped reported value must not be more favourable than the real-pool impact
+                let uncapped = bs(reported) - BigInt::from(diff);
+                if &uncapped < real {
+                    obs.probe("c03_vi_positions_impact_chosen");
+                }
+                &uncapped <= real
+            } else {
+                // never negative, never above the real impact (it may be capped below it)
+                reported >= 0 && &bs(reported) <= real
+            };
+            obs.require(
+                ok,
+                "C03",
+                "virtual_inventory_impact",
+                || format!("op={op},real_nonnegative={}", !real.is_negative()),
+                || format!("reported={reported} price_impact_diff={diff} real_open_interest_impact={real}"),
+            );
+        }
     }
 }
 
